@@ -215,22 +215,23 @@ func runCase(c *Case) *Verdict {
 }
 
 type ioArgs struct {
-	prop, config   string
-	seed           uint64
-	worker         int
-	eidx, en       int
-	minimise       bool
-	from, to       int // case index range [from,to); to<0: until deadline
-	dur            time.Duration
-	enum           bool
-	caseFile       string
-	maxViol        int
-	trace          bool
+	prop, config string
+	seed         uint64
+	worker       int
+	eidx, en     int
+	minimise     bool
+	from, to     int // case index range [from,to); to<0: until deadline
+	dur          time.Duration
+	enum         bool
+	caseFile     string
+	maxViol      int
+	trace        bool
 }
 
 // ioMain is the worker loop of the io engine.
 func ioMain(a ioArgs) int {
 	installHooks()
+	reuseOptions = true
 	start := time.Now()
 	st := newIOStats(a.prop, a.config, a.worker, a.seed)
 	viols := 0
